@@ -128,7 +128,9 @@ func genHistory(r *rng.R, long bool) history {
 	}
 	h.Disk = r.Bool(1, 3)
 	if r.Bool(1, 5) {
-		h.Query = "token=abc&x=1"
+		// preserved verbatim: keys not in alphabetical order, a key without a value, a lower-case escape (none of
+		// which survives a url.ParseQuery / Encode round trip)
+		h.Query = []string{"token=abc&x=1", "x=1&token=abc&flag", "p=%2fq&a=1", "b=2&a=1&b=3"}[r.Intn(4)]
 	}
 
 	// track set
@@ -229,6 +231,32 @@ func genHistory(r *rng.R, long bool) history {
 	startSec := r.Range(-9, 30) // negative starts down to -10 s
 	if r.Bool(1, 6) {
 		startSec = -12 // some units are rejected (dts + 10 s < 0)
+	} else if r.Bool(1, 7) {
+		// a stream that has been running for a long time (or a large first PTS): the ticks -> ns conversions
+		// must not lose precision or overflow (a plain int64 product does beyond 28.5 h at 90 kHz, a float64
+		// beyond 2^53 ns = 104 days)
+		startSec = []int64{110000, 900000, 5000000, 20000000}[r.Intn(4)]
+		if r.Bool(2, 3) {
+			// a few seconds before the leading track's ticks x 10^9 leaves int64 (2^63 / 10^9 ticks), or before
+			// its time in ns leaves the 53-bit mantissa of a float64: the history straddles the threshold
+			leadRate := tracks[0].Rate
+			for _, t := range tracks {
+				if isVideoKind(t.Kind) {
+					leadRate = t.Rate
+				}
+			}
+			off := int64(10)
+			if h.Variant == 1 {
+				off = 0
+			}
+			th := int64(9223372036) / leadRate
+			if r.Bool(1, 3) {
+				th = 9007199 // 2^53 ns
+			}
+			startSec = th - off - r.Range(0, 4)
+			h.stat("long-running-histories:straddling-a-conversion-threshold")
+		}
+		h.stat("long-running-histories")
 	}
 	ntpBase := int64(1700000000)*1e9 + int64(r.Intn(1000))*1e6
 	for i, t := range tracks {
